@@ -110,6 +110,12 @@ static std::vector<double> evalD(const std::string & op, const std::vector<doubl
     if (!smart) { throw vp::BadOp(); }
     smart->init(a[0], a[1], a[2]); return mat3<double>(smart->R());
   }
+  // the Eigen::Vector3d overloads (constructor and init): same model function, different C++ entry point
+  if (op == "smart.ctorv" && a.size() == 3) { smart.reset(new SmartRotation3D(Eigen::Vector3d(a[0], a[1], a[2]))); return mat3<double>(smart->R()); }
+  if (op == "smart.initv" && a.size() == 3) {
+    if (!smart) { throw vp::BadOp(); }
+    smart->init(Eigen::Vector3d(a[0], a[1], a[2])); return mat3<double>(smart->R());
+  }
   return evalOp<double>(op, a);
 }
 
